@@ -591,6 +591,15 @@ def _user_ea_classes():
 _USER_EA = {}
 
 
+def _de_kw(desc):
+    kw = {}
+    if "de_crossover" in desc:
+        kw["crossover"] = desc["de_crossover"]
+    if "de_scaling" in desc:
+        kw["scaling"] = desc["de_scaling"]
+    return kw
+
+
 def make_level(engine, problem, lsc, gens, box, desc):
     rng = box[:, 1] - box[:, 0]
     std = float(np.min(rng)) * desc.get("std_factor", 1.0 / 6.0)
@@ -612,9 +621,9 @@ def make_level(engine, problem, lsc, gens, box, desc):
             ea_class=cls, generations=gens, problem=problem, pop_size=pop, lsc=lsc, sample_std_dev=std, **kw
         )
     if engine == "DE":
-        return DELevelConfig(pop_size=pop, problem=problem, lsc=lsc, generations=gens, sample_std_dev=std)
+        return DELevelConfig(pop_size=pop, problem=problem, lsc=lsc, generations=gens, sample_std_dev=std, **_de_kw(desc))
     if engine == "DEd":
-        return DELevelConfig(pop_size=pop, problem=problem, lsc=lsc, generations=gens, dither=True, sample_std_dev=std)
+        return DELevelConfig(pop_size=pop, problem=problem, lsc=lsc, generations=gens, dither=True, sample_std_dev=std, **_de_kw(desc))
     if engine == "SHADE":
         return SHADELevelConfig(
             pop_size=pop, problem=problem, lsc=lsc, generations=gens, memory_size=3, sample_std_dev=std
